@@ -24,6 +24,20 @@ TRUSTED_BASE = [
 PROOF_PROPS = {'C08', 'C12', 'C13'}
 
 
+import re as _re
+
+
+def stable_name(n):
+    return _re.sub(r'(@exit\d+|#\d+|~\d+)', '', n)
+
+
+def load_baseline():
+    p = os.path.join(ROOT, 'baseline_obligations.json')
+    if os.path.exists(p):
+        return json.load(open(p))
+    return {}
+
+
 def build_registry() -> Registry:
     reg = Registry()
     import contracts
@@ -84,6 +98,9 @@ def run_property(prop: str, tier: str):
                           'file': 'contracts (pure-logic lemma over the contracts)'})
     res = solve_all(obligations, timeout_s=timeout) if obligations else {}
     failed, unknown, by_backend, solver_seconds = [], [], {}, 0.0
+    canaries = {}
+    baseline = load_baseline()
+    proved_now = {}
     n_obl = n_dis = 0
     samples = []
     assumed = sorted({k for k in seen if reg.contracts[k].trusted} | {k for k, c in reg.contracts.items() if c.trusted and any(k in getattr(r, 'called', ()) for r in [])})
@@ -92,11 +109,11 @@ def run_property(prop: str, tier: str):
         v, backend, secs, model = res[o.name]
         solver_seconds += secs
         if o.kind == 'canary':
-            if v == 'unsat':
-                errors.append('vacuous: the path condition of %s is contradictory (canary proved False)' % o.name)
+            canaries.setdefault(o.fn, []).append(v == 'unsat')
             continue
         n_obl += 1
         if v == 'unsat':
+            proved_now.setdefault(o.fn, set()).add(stable_name(o.name))
             n_dis += 1
             by_backend[backend] = by_backend.get(backend, 0) + 1
             if len(samples) < 4:
@@ -110,10 +127,24 @@ def run_property(prop: str, tier: str):
         elif v == 'error':
             errors.append('solver error on %s: %s' % (o.name, model))
         else:
-            unknown.append({'name': o.name, 'function': o.fn, 'kind': o.kind})
+            # timeout on every back end.  If this obligation was proved on the baseline tree AND the function's source has
+            # changed since, the proof regressed: reported as a failed obligation (reason: timeout).  On unchanged source a
+            # timeout is never an alarm (undecided).
+            b = baseline.get(o.fn, {})
+            src = src_of.get(id(o)) or {}
+            if b and b.get('sha') != src.get('sha256_16') and stable_name(o.name) in b.get('proved', []) and o.kind != 'type':
+                failed.append({'name': o.name, 'function': o.fn, 'kind': o.kind, 'verdict': 'regressed (proved on the baseline source, times out on the changed source)',
+                               'backend': backend, 'model': model, 'note': o.note, 'source': src})
+            else:
+                unknown.append({'name': o.name, 'function': o.fn, 'kind': o.kind})
+    for fn_, vs in canaries.items():
+        # a dead path is fine (e.g. an arm excluded by the precondition); a function ALL of whose normal exits are
+        # unreachable has a contradictory precondition or invariant: the proof would be vacuous
+        if vs and all(vs) and not any(f['function'] == fn_ for f in failed):
+            errors.append('vacuous: every normal exit of %s is unreachable under its contract (contradictory requires / invariant)' % fn_)
     return {'functions': functions, 'n_obligations': n_obl, 'n_discharged': n_dis, 'failed': failed, 'unknown': unknown,
             'unsupported': unsupported, 'errors': errors, 'by_backend': by_backend, 'solver_seconds': round(solver_seconds, 2),
-            'samples': samples, 'assumed_contracts': assumed, 'wall_s': round(time.time() - t0, 2)}
+            'samples': samples, 'assumed_contracts': assumed, 'proved_now': {k: sorted(v) for k, v in proved_now.items()}, 'wall_s': round(time.time() - t0, 2)}
 
 
 def evidence(prop, tier, seed, pr, fl, violations, known_lines, undecided, checker_errors, wall):
